@@ -129,9 +129,14 @@ class Sintl(Contract):
         yield 'valid_cell', valid_cell(c)
 
     def fresh_result(self, site, c, hkl):
-        na = num_args([c, hkl])
-        f = native_fn(self.module, 'sintl')
-        return T.real(site + '_stl', numdef=lambda env: float(f(*na(env))))
+        # one symbol per (cell, hkl): two call sites with the same arguments denote the same value
+        cx = T.ctx()
+        key = ('sintl_result', self.module, tuple(str(T.lift(x).z) for x in list(c) + list(hkl)))
+        if key not in cx.memo:
+            na = num_args([c, hkl])
+            f = native_fn(self.module, 'sintl')
+            cx.memo[key] = T.real(site + '_stl', numdef=lambda env: float(f(*na(env))))
+        return cx.memo[key]
 
     def ensures(self, c, hkl, stl):
         K = self.K() if symbolic_mode() else self.Knum()
